@@ -15,7 +15,7 @@ def kv (w : String) : Option (String × String) :=
 def natList (s : String) : List Nat := (s.splitOn ",").filterMap (fun x => if x.isEmpty then none else x.toNat?)
 
 def showEv : Ev → String
-  | .write s i l t => s!"w:{s}:{i}:{l}:{t}"
+  | .write s i l t n => s!"w:{s}:{i}:{l}:{t}{if n then ":na1" else ""}"
   | .wthrow s i => s!"wthrow:{s}:{i}"
   | .flushed s => s!"fl:{s}"
   | .fthrow s => s!"fthrow:{s}"
@@ -84,6 +84,15 @@ def execFront0 (s : BSt) (w : List String) : BSt × String :=
       | some lgi, true => frontCall s a lgi (.initBt (nat! p3) (nat! p4)) 8 0 2 false 0
       | _, _ => (s, "noop")
     else (s, "bad-op")
+  | ["LN", a, g, len] =>
+    let a := nat! a
+    match loggerOf s (nat! g), idleActor s a with
+    | some lgi, true =>
+      let id := s.nextId
+      let s1 := { s with nextId := id + 1 }
+      if shouldLog 4 (s1.lgOf lgi).level then frontCall s1 a lgi .log 4 (nat! len) 5 false id true
+      else (s1, s!"id={id} ev=0 bytes=0")
+    | _, _ => (s, "noop")
   | ["LB", a, g, len] =>
     let a := nat! a
     match loggerOf s (nat! g), idleActor s a with
@@ -152,6 +161,7 @@ def execFront (s : BSt) (w : List String) : BSt × String :=
     if parked then r else (r.1.setActor a (fun x => { x with inCall := none }), r.2)
   | [op, a, g, _, _] => if op == "L" || op == "LS" || op == "IB" then noteCall r (nat! a) (nat! g) else r
   | ["LB", a, g, _] => noteCall r (nat! a) (nat! g)
+  | ["LN", a, g, _] => noteCall r (nat! a) (nat! g)
   | [op, a, g] => if op == "FB" || op == "F" || op == "RB" then noteCall r (nat! a) (nat! g) else r
   | _ => r
 
